@@ -31,6 +31,7 @@ def ops_job(op, elem, n, cap, fmask=0, alias=0, afl=0, maxcnt=2, size=None, std=
         defs['VF_B'] = 2; tag += '-b2'   # initializer-list ops instantiate one call site per length: pin the length when faults are on
     if extra_defs: defs.update(extra_defs)
     minalloc = n + 1; maxalloc = maxcap; allocmask = None
+    if op == 'shrink': minalloc = 0   # let a (wrong) request for <= N elements through so that the resulting state is judged by the invariants
     if ce:
         # forced constant evaluation: every buffer (also the N-element 'inline' one and heap_temporary's sizeof(T)-element block) comes from the allocator
         defs['VF_FORCE_CONSTANT_EVALUATED'] = 1; std = 'c++20' if std == 'c++17' else std; tag += '-ce'; minalloc = 0
